@@ -42,6 +42,9 @@ def seeds(seed=0):
     out.append(("sd-stop-subscribe", _sd(12, [("subscribe", s, 1, 1, 0, 5, (v4,), ())])))
     # two SD messages in one datagram: damaging the first must not cost the second
     out.append(("two-sd-messages", _sd(13, [("offer", s, 2, 1, 3, 0, (v4,), ())]) + _sd(14, [("offer", s, 1, 1, 3, 0, (v4,), ())])))
+    # an SD message without entries whose options array is not empty (nothing refers to the options; they are decoded
+    # and validated all the same)
+    out.append(("sd-options-without-entries", rc.enc_someip(0xFFFF, 0x8100, 0, 15, 1, 2, 0, rc.enc_sd(0xC0, [], [v4, cfg]))))
     return out
 
 
